@@ -28,7 +28,7 @@ rm -f tests/zz_demo.rs
 fi
 rm -rf $S/wt-target
 # harness copy pointing at the patched worktree
-cp -r /verif/harness $S/harness
+cp -r ${PQMC_HARNESS_SRC:-/verif/harness} $S/harness
 sed -i "s#path = \"/repo\"#path = \"$WT\"#" $S/harness/Cargo.toml
 sed -i "s#target-dir = \"/verif/target\"#target-dir = \"$S/target\"#" $S/harness/.cargo/config.toml
 unset CARGO_TARGET_DIR
